@@ -24,7 +24,9 @@ def run(c):
               "token signed by one of the configured keys and naming it, changed in 0 (30%), 1 (60%) or 2 (10%) aspects out of alg / kind / "
               "kid (another configured key, the unconfigured key, junk) / signature (signed by another configured key, by the LAST configured "
               "key, by the unconfigured key, bit flip, truncation, ...) / iss / user / exp / iat / nbf "
-              "(+-5 s boundaries at ms, quarter-second and second offsets) / malformed segments; claims JSON shapes: bits key present / "
+              "(+-5 s boundaries at ms, quarter-second and second offsets; boundary-aware absolute times: the epoch, negative, year 1900 / "
+              "9999, now -/+ 2^63 ns and 2^64 ns and the band between them, +-2^63 ns, +-2^53 s, and for exp JSON numbers beyond 2^53 s such "
+              "as Min/MaxInt64, 1e19, 1e300; valid tokens also with far-future exp / far-past iat) / malformed segments; claims JSON shapes: bits key present / "
               "absent / null / [], vkuth_data absent / null, user / iss / exp / iat / nbf absent or null, is_service omitted / false / "
               "null; bit sets: first token usually privileged, later tokens random / bit-less / a subset of the previous token's bits / "
               "the previous bits under another application's prefix (own prefix, foreign and near-miss prefixes, all ten bit forms, junk). "
@@ -43,6 +45,9 @@ def run(c):
         "base64 / JSON decoding of the token segments by golang-jwt and encoding/json is not modelled: a token whose segments do not "
         "decode is the model input `malformed`; header and claim values reach the model as the harness's spec of the token",
         "golang-jwt's check order and error bits (ParseWithClaims) are modelled and compared through the error mask of every rejection",
+        "times are unbounded Int milliseconds in the model (time.Time comparisons do not overflow); JSON numbers up to 2^53 s are exact "
+        "in float64 and reach the model as generated; for exp beyond 2^53 s (float64 rounding, Go's implementation-defined float->int64 "
+        "conversion) the model is given the seconds golang-jwt's own NumericDate decoding yields, the oracle uses the number as written",
         "Weight is float64 in Go; the model uses quarters (exact domain); NaN weights are not generated",
         "local / insecure mode (token ignored by design) is modelled and compared but excluded from the acceptance oracle",
         "'the grants are a function of (configuration, clock, token) alone' is the FORM of the model (parseAccessToken has no state "
@@ -81,7 +86,10 @@ META = {
     "text": ("Kernel-checked: a token is accepted iff alg=EdDSA, kind=token, kid names a configured key under which the signature verifies, "
              "(the key table kid -> key bytes is modelled: parseKeys = ParseVkuthKeys stores every listed key under its own fingerprint "
              "(parseKeys_sound / parseKeys_complete), and an accepted token's signature verifies under THE listed key whose fingerprint its "
-             "kid is (accept_signed_by_named_key, wrong_key_rejected)), iss=vkuth, user non-empty, exp present and now < exp+5s, iat present and iat <= now+5s, nbf absent or <= now (accept_iff, "
+             "kid is (accept_signed_by_named_key, wrong_key_rejected)), iss=vkuth, user non-empty, exp present and now < exp+5s, iat present and iat <= now+5s, nbf absent or <= now, "
+             "all on unbounded integer time - every expired token is rejected however long ago it expired (long_expired_rejected), and the "
+             "int64-nanosecond-wrapping variant of the expiry test is shown to differ (expOkWrap_accepts_long_expired) while agreeing within "
+             "+-292 years (expOkWrap_agrees) (accept_iff, "
              "parse_ok_only_if); the accessInfo depends only on bits carrying the application prefix and every granted flag / prefix / "
              "metric traces back to such a bit (grants_only_app_bits, *_traced); a non-admin views a name only through a metric, prefix, "
              "namespace or default-unprotected bit of the token (view_only_through_bit), edits only with such a right on both names "
